@@ -136,7 +136,7 @@ def chunk_bytes(cid: int, sz: int) -> bytes:
 # generation
 # --------------------------------------------------------------------------------------
 def generate(rng: random.Random, tier: str) -> dict:
-    layer = "B" if rng.random() < (0.03 if tier == "quick" else 0.05) else "A"
+    layer = "B" if rng.random() < 0.06 else "A"
     mn = rng.choice([1, 10, 10, 10, 64])
     min_part = rng.choice([1, 1, 1, 2, 7])
     wpc = rng.choice([1, 1, 2, 3, 5])
